@@ -370,10 +370,15 @@ Proof. reflexivity. Qed.
 Lemma size_T id i ch : size (T id i ch) = S (size_f ch).
 Proof. reflexivity. Qed.
 
+(* same payloads, same shape: equal up to node identities *)
+Inductive eqv : rt -> rt -> Prop :=
+| eqv_node : forall id i ch id' ch', Forall2 eqv ch ch' -> eqv (T id i ch) (T id' i ch').
+
 Definition renum_ok (t : rt) : Prop :=
   forall n,
     snd (renum n t) = (n + size t)%nat /\
     ids_t (fst (renum n t)) = seq (S n) (size t) /\
+    eqv t (fst (renum n t)) /\
     rinfo (fst (renum n t)) = rinfo t /\
     (forall t0, iso t0 t -> iso t0 (fst (renum n t))) /\
     (sibuniq t -> sibuniq (fst (renum n t))).
@@ -381,19 +386,21 @@ Definition renum_ok (t : rt) : Prop :=
 Lemma renum_f_ok : forall f, Forall renum_ok f -> forall n,
     snd (renum_f n f) = (n + size_f f)%nat /\
     ids (fst (renum_f n f)) = seq (S n) (size_f f) /\
+    Forall2 eqv f (fst (renum_f n f)) /\
     map rinfo (fst (renum_f n f)) = map rinfo f /\
     (forall f0, Forall2 iso f0 f -> Forall2 iso f0 (fst (renum_f n f))) /\
     (Forall sibuniq f -> Forall sibuniq (fst (renum_f n f))).
 Proof.
   induction f as [|x xs IH]; intros HP n.
-  - cbn. rewrite Nat.add_0_r. refine (conj eq_refl (conj eq_refl (conj eq_refl (conj _ _)))); auto.
+  - cbn. rewrite Nat.add_0_r. refine (conj eq_refl (conj eq_refl (conj (Forall2_nil _) (conj eq_refl (conj _ _))))); auto.
   - inversion HP as [|x0 xs0 Px Pxs]; subst.
     rewrite renum_f_cons. cbn [fst snd].
-    destruct (Px n) as (A1 & A2 & A3 & A4 & A5).
-    destruct (IH Pxs (snd (renum n x))) as (B1 & B2 & B3 & B4 & B5).
-    refine (conj _ (conj _ (conj _ (conj _ _)))).
+    destruct (Px n) as (A1 & A2 & A0 & A3 & A4 & A5).
+    destruct (IH Pxs (snd (renum n x))) as (B1 & B2 & B0 & B3 & B4 & B5).
+    refine (conj _ (conj _ (conj _ (conj _ (conj _ _))))).
     + rewrite B1, A1, size_f_cons. lia.
     + rewrite ids_cons_t, A2, B2, A1, size_f_cons, seq_app. reflexivity.
+    + constructor; assumption.
     + cbn [map]. now rewrite A3, B3.
     + intros f0 H. inversion H as [|a b la lb Hab Hl]; subst. constructor; [apply A4|apply B4]; assumption.
     + intros H. inversion H as [|a la Ha Hl]; subst. constructor; [apply A5|apply B5]; assumption.
@@ -403,10 +410,11 @@ Lemma renum_all_ok : forall t, renum_ok t.
 Proof.
   induction t as [id i ch IH] using rt_ind'. intros n.
   rewrite renum_unfold. cbn [fst snd].
-  destruct (renum_f_ok ch IH (S n)) as (B1 & B2 & B3 & B4 & B5).
-  refine (conj _ (conj _ (conj _ (conj _ _)))).
+  destruct (renum_f_ok ch IH (S n)) as (B1 & B2 & B0 & B3 & B4 & B5).
+  refine (conj _ (conj _ (conj _ (conj _ (conj _ _))))).
   - rewrite B1, size_T. lia.
   - rewrite ids_t_unfold. cbn [rid rch]. rewrite B2, size_T. reflexivity.
+  - constructor. exact B0.
   - reflexivity.
   - intros t0 H. inversion H as [id0 i0 ch0 id' i' ch' S1 S2 S3 S4 S5]; subst.
     constructor; try assumption. now apply B4.
@@ -415,13 +423,18 @@ Proof.
     + now apply B5.
 Qed.
 
+Lemma renum_forest_eqv f n : Forall2 eqv f (fst (renum_f n f)).
+Proof.
+  destruct (renum_f_ok f (proj2 (Forall_forall _ _) (fun t _ => renum_all_ok t)) n) as (_ & _ & B0 & _). exact B0.
+Qed.
+
 Lemma renum_forest_ok f n :
     ids (fst (renum_f n f)) = seq (S n) (size_f f) /\
     map rinfo (fst (renum_f n f)) = map rinfo f /\
     (forall f0, Forall2 iso f0 f -> Forall2 iso f0 (fst (renum_f n f))) /\
     (Forall sibuniq f -> Forall sibuniq (fst (renum_f n f))).
 Proof.
-  destruct (renum_f_ok f (proj2 (Forall_forall _ _) (fun t _ => renum_all_ok t)) n) as (_ & B2 & B3 & B4 & B5).
+  destruct (renum_f_ok f (proj2 (Forall_forall _ _) (fun t _ => renum_all_ok t)) n) as (_ & B2 & _ & B3 & B4 & B5).
   auto.
 Qed.
 
@@ -786,3 +799,98 @@ Section Refusal.
       apply Forall_forall. intros p _. apply fd_item_err.
   Qed.
 End Refusal.
+
+(* ------------------------------------------------------------------ *)
+(* Node.from_dict into a node of an existing tree keeps sibling uniqueness *)
+Lemma set_ch_rinfo tg new t : rinfo (set_ch tg new t) = rinfo t.
+Proof. destruct t as [id i ch]. cbn [set_ch]. destruct (Nat.eqb id tg); reflexivity. Qed.
+
+Lemma set_ch_dids tg new l : map rdid (map (set_ch tg new) l) = map rdid l.
+Proof. rewrite map_map. apply map_ext. intros t. unfold rdid. now rewrite set_ch_rinfo. Qed.
+
+Lemma set_ch_sibuniq tg new : sibuniq_f new -> forall t, sibuniq t -> sibuniq (set_ch tg new t).
+Proof.
+  intros [NDn SUn]. induction t as [id i ch IH] using rt_ind'. intros H.
+  inversion H as [id0 i0 ch0 ND SU]; subst. cbn [set_ch].
+  destruct (Nat.eqb id tg).
+  - constructor; assumption.
+  - constructor.
+    + rewrite set_ch_dids. exact ND.
+    + clear -IH SU. induction ch as [|c cs IHc]; cbn [map]; constructor.
+      * inversion IH as [|a b Ha Hb]; subst. inversion SU as [|a' b' Sa Sb]; subst. now apply Ha.
+      * inversion IH as [|a b Ha Hb]; subst. inversion SU as [|a' b' Sa Sb]; subst. now apply IHc.
+Qed.
+
+Theorem node_from_dict_safe dd calc next f target obj f' :
+  sibuniq_f f -> node_from_dict dd calc next f target obj = inl f' -> sibuniq_f f'.
+Proof.
+  intros [ND SU] H. unfold node_from_dict in H.
+  destruct (find_node target f) as [[id i [|c cs]]|]; try discriminate.
+  destruct (from_dict dd calc next obj) as [ch|e] eqn:E; [|discriminate].
+  injection H as <-. pose proof (from_dict_safe dd calc next obj ch E) as Sch.
+  split.
+  - rewrite set_ch_dids. exact ND.
+  - clear -SU Sch. induction SU as [|t r Ht _ IH]; cbn [map]; constructor; [now apply set_ch_sibuniq|exact IH].
+Qed.
+
+(* ------------------------------------------------------------------ *)
+(* Specification 3: a tree is built from a decoded item: payload = the decoded
+   data with the item's effective id, children built from the child items in
+   order.  from_dict on ANY input, when it succeeds, builds exactly that. *)
+Section Built.
+  Variables (dd : dmapper) (calc : info -> did).
+
+  Inductive built : pt -> rt -> Prop :=
+  | built_node : forall d kids i dv id ch,
+      dd (dget k_data d) = inl i -> did_for calc (dget k_data_id d) i = inl dv ->
+      Forall2 built kids ch -> built (PT d kids) (T id (mk_info i dv) ch).
+
+  Definition built_goal (p : pt) : Prop := forall seen t, fd_item dd calc p seen = inl t -> built p t.
+
+  Lemma fd_loop_built : forall l, Forall built_goal l ->
+    forall seen f, fd_loop dd calc l seen = inl f -> Forall2 built l f.
+  Proof.
+    induction l as [|p ps IH]; intros HP seen f E.
+    - cbn in E. injection E as <-. constructor.
+    - inversion HP as [|p0 ps0 Pp Pps]; subst. cbn [fd_loop] in E.
+      destruct (fd_item dd calc p seen) as [t|e] eqn:E1; [|discriminate].
+      destruct (fd_loop dd calc ps (seen ++ [rdid t])) as [ts|e] eqn:E2; [|discriminate].
+      injection E as <-. constructor; [eapply Pp; eassumption|eapply IH; eassumption].
+  Qed.
+
+  Lemma fd_item_built : forall p, built_goal p.
+  Proof.
+    induction p as [|d kids IH] using pt_ind'; intros seen t E.
+    - discriminate.
+    - rewrite fd_item_PT in E.
+      destruct (dd (dget k_data d)) as [i0|e] eqn:E1; [|discriminate].
+      destruct (did_for calc (dget k_data_id d) i0) as [dv|e] eqn:E2; [|discriminate].
+      destruct (existsb (did_eqb dv) seen); [discriminate|].
+      destruct (fd_loop dd calc kids []) as [ch|e] eqn:El; [|discriminate].
+      injection E as <-. econstructor; [exact E1|exact E2|]. eapply fd_loop_built; eassumption.
+  Qed.
+
+  Lemma built_eqv : forall p t, built p t -> forall t', eqv t t' -> built p t'.
+  Proof.
+    induction p as [|d kids IH] using pt_ind'; intros t B t' Q.
+    - inversion B.
+    - inversion B as [d0 k0 i dv id ch E1 E2 F]; subst.
+      inversion Q as [id0 i0 ch0 id' ch' Fq]; subst.
+      econstructor; [exact E1|exact E2|].
+      clear -IH F Fq. revert ch' Fq. induction F as [|k c ks cs Hkc _ IHF]; intros ch' Fq.
+      + inversion Fq; subst. constructor.
+      + inversion Fq as [|c0 c' cs0 cs' Hc Hcs]; subst. inversion IH as [|k0 ks0 Hk Hks]; subst.
+        constructor; [eapply Hk; eassumption|now apply IHF].
+  Qed.
+
+  Theorem from_dict_built next obj f : from_dict dd calc next obj = inl f -> Forall2 built (map parse obj) f.
+  Proof.
+    unfold from_dict. destruct (fd_loop dd calc (map parse obj) []) as [f0|e] eqn:E; [|discriminate].
+    intros H. injection H as <-.
+    pose proof (fd_loop_built _ (proj2 (Forall_forall _ _) (fun p _ => fd_item_built p)) _ _ E) as B.
+    pose proof (renum_forest_eqv f0 next) as Q.
+    clear -B Q. revert Q. generalize (fst (renum_f next f0)). induction B as [|p t ps ts Hpt _ IH]; intros g Q.
+    - inversion Q; subst. constructor.
+    - inversion Q as [|t0 t' ts0 ts' Ht Hts]; subst. constructor; [eapply built_eqv; eassumption|now apply IH].
+  Qed.
+End Built.
